@@ -43,6 +43,7 @@ DOCS = [
     ("", b"<!DOCTYPE html><!--" + b"x" * 1030 + b"--><p>x<meta charset=utf-8>y</p><table>z"),
     ("", ["<!DOCTYPE html><table>a\x00b</table>"]),      # the tokenizer queues two tokens at once (error + NUL)
     ("div", ["<p>a<table>b</table>c"]),                  # fragment whose tree depends on the compatibility mode
+    ("TABLE", ["ab<", "!--c-->", " "]),                   # document 10 again: container upper case and passed POSITIONALLY
 ]
 
 
@@ -50,7 +51,8 @@ def doc_call(docno, fail, strict, hook=None):
     frag, chunks = DOCS[docno - 1]
     if isinstance(chunks, bytes):
         return {"frag": frag or None, "bytes": chunks, "fail": 0, "strict": strict}
-    return {"frag": frag or None, "chunks": chunks, "fail": fail, "strict": strict, "hook": hook}
+    return {"frag": frag or None, "chunks": chunks, "fail": fail, "strict": strict, "hook": hook,
+            "conv": "pos" if frag != frag.lower() else "kw"}
 
 
 def doc_text(docno):
@@ -86,7 +88,8 @@ def record_reads(frag, chunks, tb="etree"):
     if isinstance(chunks, bytes):
         lc.run_call(p, tb, {"frag": frag or None, "bytes": chunks, "fail": 0, "strict": False}, rec=log)
         return [[strip_r(t) for t in log]]
-    lc.run_call(p, tb, {"frag": frag or None, "chunks": chunks, "fail": 0, "strict": False}, rec=log)
+    lc.run_call(p, tb, {"frag": frag or None, "chunks": chunks, "fail": 0, "strict": False,
+                        "conv": "pos" if frag != frag.lower() else "kw"}, rec=log)
     n = max([t["r"] for t in log] + [0])
     reads = [[] for _ in range(n)]
     for t in log:
@@ -168,11 +171,14 @@ def vocab_calls(rng, ncalls):
     calls = []
     for _ in range(ncalls):
         frag = rng.choice(lc.CONTAINERS) if rng.random() < 0.3 else None
-        text = "".join(lc.vocab_doc(rng, frag))
+        text = "".join(lc.vocab_doc(rng, frag))          # (the generator sees the lower-case name)
         chunks = lc.chunking(rng, text)
         strict = rng.random() < 0.35
         fail = rng.randint(1, len(chunks) + 1) if rng.random() < 0.3 else 0
-        call = {"frag": frag, "chunks": chunks, "fail": fail, "strict": strict}
+        conv = rng.choice(["kw", "kw", "pos"])
+        if frag is not None:
+            frag = rng.choice([frag, frag, frag.upper(), frag.title()])      # same element, other letter case
+        call = {"frag": frag, "chunks": chunks, "fail": fail, "strict": strict, "conv": conv}
         if frag is None and rng.random() < 0.12:
             # a byte string whose encoding declaration lies beyond the prescan window: reset() and re-parse inside the call
             parts = lc.vocab_doc(rng, None)
@@ -265,7 +271,7 @@ def _run(ctx):
     docs3 = [1, 2, 3, 4, 5, 7, 10, 11, 15, 16]          # the documents that leave or reveal a persistent field
     runs = [(2, False, docs)] if quick else [(2, False, docs), (3, True, docs3)]
     # 1. intended design: the theorems hold
-    for mcalls, probe, dd in runs:
+    for mcalls, probe, dd in (runs if listed else []):       # with nothing listed the code-faithful machine IS the intended one
         r = ctx.tlc("MC_Lifecycle", mc_cfg(mcalls, dd, probe, False, [], ALL_THMS), "mc-intended-%d" % mcalls)
         if r.violated:
             ctx.violation("theorem %s fails on the intended specification" % r.violated, {"tlc": r.stdout_path})
@@ -273,7 +279,7 @@ def _run(ctx):
     # 2. code-faithful machine: exported, replayed on real objects
     shown = 0
     for mcalls, probe, dd in runs:
-        r = ctx.tlc("MC_Lifecycle", mc_cfg(mcalls, dd, probe, True, listed, ("ThmInside", "ThmStrict", "ThmExport")),
+        r = ctx.tlc("MC_Lifecycle", mc_cfg(mcalls, dd, probe, True, listed, ("ThmInside", "ThmStrict", "ThmExport") if listed else ALL_THMS + ("ThmExport",)),
                     "mc-faithful-%d" % mcalls, keep_records=False)
         if r.violated:
             ctx.violation("theorem %s fails on the code-faithful specification" % r.violated, {"tlc": r.stdout_path})
@@ -335,8 +341,9 @@ def _run(ctx):
     judge(ctx, traces, meta, consts, "trace-wide")
     # 5. two independent objects, every interleaving at read() granularity
     run_schedules(ctx)
-    # 6. handler cache
+    # 6. handler cache, factory cache
     run_cache(ctx)
+    run_factory_cache(ctx)
     # 7. process-wide walker / filter state first (the later stages switch filters on), then serializer and walker objects
     run_process_history(ctx, pool)
     run_walker_cache(ctx)
@@ -394,7 +401,8 @@ def wide_call(ctx, pool):
         return table_abort_call(rng)
     text = wide_doc(ctx, pool)
     chunks = lc.chunking(rng, text) if "\r" not in text and not any(0xD800 <= ord(c) < 0xE000 for c in text) else [text]
-    return {"frag": rng.choice(["div", "table", "tr", "td", "select", "textarea", "title", "svg", "pre", "body", "html"])
+    return {"conv": rng.choice(["kw", "pos"]),
+            "frag": rng.choice(["div", "table", "tr", "td", "select", "textarea", "title", "svg", "pre", "body", "html", "TR", "Select"])
             if rng.random() < 0.3 else None,
             "chunks": chunks, "strict": rng.random() < 0.3,
             "fail": rng.randint(1, len(chunks) + 1) if rng.random() < 0.25 else 0}
@@ -807,6 +815,59 @@ def run_serializer(ctx, pool):
 
 
 # ------------------------------------------------------------------------------------------------
+# process-wide factory cache (getTreeBuilder / getTreeWalker): option VALUES, requested in every order
+def fc_cfg(maxlen, names_only, export):
+    return ("INIT Init\nNEXT Next\nCHECK_DEADLOCK FALSE\nINVARIANT ThmFactoryKeyed\nINVARIANT ThmExport\nCONSTANT MaxLen = %d\n"
+            "CONSTANT KeyNamesOnly = %s\nCONSTANT Export = %s\nCONSTANT KnownDefects = {}\n"
+            % (maxlen, "TRUE" if names_only else "FALSE", "TRUE" if export else "FALSE"))
+
+
+def run_factory_cache(ctx):
+    mlen = 3 if ctx.quick else 4
+    ctx.constants["MC_FactoryCache"] = {"MaxLen": mlen, "requests": "etree builder x fullTree absent/True/False x namespaceHTMLElements, "
+                                        "dom builder, etree walker"}
+    r = ctx.tlc("MC_FactoryCache", fc_cfg(mlen, False, True), "mc-factorycache", keep_records=False)
+    if r.violated:
+        ctx.violation("theorem %s fails on MC_FactoryCache" % r.violated, {"tlc": r.stdout_path})
+        return
+    r2 = ctx.tlc("MC_FactoryCache", fc_cfg(2, True, False), "mc-factorycache-refuted", expect_ok=False, workers=1)
+    ctx.notes["names_only_factory_key_refuted_at_model_level"] = (r2.violated == "ThmFactoryKeyed")
+    recs = [x for x in tlc.iter_records(r.stdout_path) if isinstance(x, dict) and "hist" in x]
+    recs.sort(key=lambda x: json.dumps(x, sort_keys=True))
+    # fresh interpreters first: both orders of the two explicit values, from a cold cache
+    env = dict(os.environ)
+    env["VERIF_REPO"] = core.REPO
+    for order in (["true", "false", "absent", "true"], ["false", "true", "false", "absent"], ["absent", "true", "false"]):
+        reqs = [{"kind": "tb-etree", "full": f, "ns": True} for f in order]
+        pr = subprocess.run([sys.executable, "-m", "harness.lifecycle"], input=json.dumps({"factory": reqs}) + "\n", cwd=core.VERIF,
+                            env=env, stdout=subprocess.PIPE, stderr=subprocess.PIPE, universal_newlines=True, timeout=120)
+        try:
+            got = json.loads(pr.stdout.strip().splitlines()[-1])
+        except (ValueError, IndexError):
+            got = "helper failed: " + pr.stderr[-300:]
+        ctx.traces += 1
+        want = [[f == "true", True] for f in order]
+        if got != want:
+            ctx.violation("in a fresh interpreter the tree builder factory hands out a module that is not the one the option values ask for",
+                          {"kind": "factory-fresh", "requests": reqs, "expected": want, "got": got})
+    for k, rec in enumerate(recs):
+        ctx.traces += 1
+        for ci, h in enumerate(rec["hist"]):
+            try:
+                got = lc.factory_observe(h, spell=k + ci)
+            except Exception as e:      # noqa
+                got = ("crash:" + type(e).__name__, False)
+            if got != (h["got"], True):
+                ctx.violation("factory request %d in one process: the module handed out is not the one its option values ask for "
+                              "(MC_FactoryCache)" % (ci + 1),
+                              {"kind": "factory", "history": rec["hist"], "request": h, "expected": [h["got"], True], "got": list(got)})
+                break
+        fulls = [h["full"] for h in rec["hist"] if h["kind"] == "tb-etree"]
+        if "true" in fulls and "false" in fulls:
+            ctx.nontriv("fc:" + json.dumps([[h["kind"], h["full"], h["ns"]] for h in rec["hist"]]))
+
+
+# ------------------------------------------------------------------------------------------------
 # process-wide state of walkers / filters (tokens must be owned by the call)
 WS_RUN = {"nl": "\n", "sp": " ", "nlsp": "\n  ", " ": " "}
 WS_DOC = {1: "<i>a</i>%s<i>b</i>", 2: "<pre><b>x</b>%s<b>y</b>%s</pre>", 3: "<i>a</i>%s<i>b</i>%s<i>c</i>%s<i>d</i>", 4: "<u>a</u>%s<u>b</u>"}
@@ -1000,6 +1061,10 @@ def replay(case):
                 bad = "parser %d under the interleaving differs from the same call made alone" % i
         if baton.mismatch or baton.order != c["schedule"]:
             bad = "schedule could not be enforced"
+    elif kind == "factory":
+        for h in c["history"]:
+            if lc.factory_observe(h) != (h["got"], True):
+                bad = "factory request differs from MC_FactoryCache"
     elif kind == "cache":
         b = replay_cache(c["expected"], c["table"])
         bad = "Phase.%s differs from the cache machine" % b[0]["method"] if b else None
